@@ -50,7 +50,14 @@ def main():
     extra_env = {}
     if a.worktree:
         wt = '/tmp/st_%d' % os.getpid()
-        sh('git -C /repo worktree add -q --detach %s HEAD' % wt)
+        for _try in range(8):
+            rc_, out_ = sh('git -C /repo worktree add -q --detach %s HEAD' % wt)
+            if rc_ == 0 and os.path.isdir(wt):
+                break
+            time.sleep(1.5 + _try)
+        else:
+            print('cannot create worktree:', out_)
+            return 2
         REPO = wt
         extra_env = {'VERIF_REPO': wt, 'PYTHONPATH': wt}
     rc, out = sh('git status --porcelain', cwd=REPO)
@@ -105,7 +112,7 @@ def main():
                 shutil.copy(os.path.join(seed, f), dst)
         meta = {'breaks_property': a.prop, 'needs_to_manifest': a.needs or 'see notes.md', 'confirmed': ok,
                 'what_was_run': res['ran'], 'detected_by': res['detected_by'], 'checks': res['checks'],
-                'repo_commit': sh('git rev-parse HEAD', cwd=REPO)[1].strip()}
+                'repo_commit': sh('git rev-parse HEAD', cwd='/repo')[1].strip()}
         mp = os.path.join(dst, 'meta.json')
         if os.path.exists(mp):
             old = json.load(open(mp))
